@@ -126,6 +126,9 @@ class ShapelyPolygon(Domain):
             # if a number of points if specified we have to make sure
             # to sample the right amount of points
             points = self._grid_enough_points(n, points, device)
+        # the part of the bounding box grid that lies inside the polygon can hold
+        # some points more than asked for
+        points = points[:n]
         return Points(points, self.space)
 
     def _create_points_in_bounding_box(self, n, device):
